@@ -12,47 +12,67 @@
 (* The state is what the real run left behind (observed files) and the     *)
 (* current versions; every run is judged by the predicates of OutputRef    *)
 (* against the state before it.  A failed predicate is reported as         *)
-(*   <<"BAD", history, run, predicate, plot>>                              *)
-(* and the history goes on from the observed state; <<"END", history>>     *)
-(* confirms that the whole history was consumed.                           *)
+(*   <<"BAD", history, run, predicate, plot, whose>>                       *)
+(* whose = "design": the pinned DESIGN of the chain - RunPlot of           *)
+(* OutputSem.tla with a Write that leaves output.changed alone when it     *)
+(* creates a file, the known finding - fails the same predicate from the   *)
+(* same state before the run; "other": it does not, so the failure is not  *)
+(* the known finding.  For a plot with a failed predicate                  *)
+(*   <<"DEV", history, run, plot, where>>                                  *)
+(* names the first place along the chain where the observation departs     *)
+(* from that design.  The history goes on from the observed state;         *)
+(* <<"END", history>> confirms that the whole history was consumed.        *)
 (***************************************************************************)
-EXTENDS OutputRef, IOUtils, Json
+EXTENDS OutputSem, IOUtils, Json
 Trace == JsonDeserialize(IOEnv.TRACE_FILE)
-VARIABLES hi, j, dataVer, tplVer, files
-tvars == <<hi, j, dataVer, tplVer, files>>
+VARIABLES hi, j, dataVer, tplVer, files, newer
+tvars == <<hi, j, dataVer, tplVer, files, newer>>
 H == Trace[hi]
 NP == Len(H.srcs)
 TInit == /\ hi \in 1..Len(Trace) /\ j = 1
          /\ dataVer = [p \in 1..Len(Trace[hi].srcs) |-> [m \in 1..Trace[hi].srcs[p] |-> 1]] /\ tplVer = 1
          /\ files = [p \in 1..Len(Trace[hi].srcs) |->
                        [csv |-> [m \in 1..Trace[hi].srcs[p] |-> Absent], tex |-> Absent, pdf |-> Absent, png |-> Absent]]
+         \* the tex of plot p was written after its pdf (what the modification times say)
+         /\ newer = [p \in 1..Len(Trace[hi].srcs) |-> FALSE]
 Count(s, x) == Cardinality({i \in 1..Len(s) : s[i] = x})
 Gone(e, p, k, m, f) == IF Count(e.touched.del, <<p, k, m>>) > 0 THEN Absent ELSE f
-Report(name, p, cond) == IF cond THEN TRUE ELSE PrintT(<<"BAD", hi, j, name, p>>)
 \* a file of plot p was deleted or one of its sources changed before run e
 TouchedPlot(e, p) == \/ \E i \in 1..Len(e.touched.del) : e.touched.del[i][1] = p
                      \/ \E i \in 1..Len(e.touched.data) : e.touched.data[i][1] = p
 NoOverwrite(s) == s.m1 # "overwrite" /\ s.m2 # "overwrite" /\ ~s.lo /\ ~s.po
-Judge(e, dv, tv, pre) ==
-  /\ Report("RunRaised", 0, e.exc = "")
-  /\ \A p \in 1..NP : LET o == e.obs[p]  cur == Current(tv, dv[p]) IN
+\* what the pinned design does with plot p in this run
+Pinned(p, dv, tv, pre) == RunPlot(FALSE, H.set, H.obj[p], H.grouped, pre[p], newer[p], dv[p], tv)
+\* the predicates of the statement for plot p: <<name, holds for the observation, holds for the pinned design>>
+Verdicts(e, p, dv, tv, pre) ==
+  LET o == e.obs[p]  cur == Current(tv, dv[p])  m == Pinned(p, dv, tv, pre)
+      unchanged == j >= 2 /\ e.touched.del = <<>> /\ e.touched.data = <<>> /\ ~e.touched.tpl /\ NoOverwrite(H.set) /\ ~H.obj[p]
+      untouched == j >= 2 /\ ~TouchedPlot(e, p) /\ ~e.touched.tpl /\ NoOverwrite(H.set) /\ ~H.obj[p]
+  IN <<
        \* every file named by a yielded value exists where it should, with the content made from the current data
-       /\ Report("Yielded", p, o.nvals = 1 /\ o.path_ok)
-       /\ Report("Current_csv", p, o.files.csv = cur.csv)
-       /\ Report("Current_tex", p, o.files.tex = cur.tex)
-       /\ Report("Current_pdf", p, o.files.pdf = cur.pdf)
-       /\ Report("Current_png", p, o.files.png = cur.png)
+       <<"Yielded", o.nvals = 1 /\ o.path_ok, TRUE>>,
+       <<"Current_csv", o.files.csv = cur.csv, m.files.csv = cur.csv>>,
+       <<"Current_tex", o.files.tex = cur.tex, m.files.tex = cur.tex>>,
+       <<"Current_pdf", o.files.pdf = cur.pdf, m.files.pdf = cur.pdf>>,
+       <<"Current_png", o.files.png = cur.png, m.files.png = cur.png>>,
        \* regenerated if anything it was rendered from was rewritten, or if it was missing
-       /\ Report("Regenerated_pdf", p, RegeneratedPdf(pre[p], o.wrote, o.launched))
-       /\ Report("Regenerated_png", p, RegeneratedPng(pre[p], o.launched))
+       <<"Regenerated_pdf", RegeneratedPdf(pre[p], o.wrote, o.launched), RegeneratedPdf(pre[p], m.wrote, m.launched)>>,
+       <<"Regenerated_png", RegeneratedPng(pre[p], o.launched), RegeneratedPng(pre[p], m.launched)>>,
        \* output.changed true whenever something changed, sticky downstream
-       /\ Report("Changed", p, ChangedFlag(o.ch, o.wrote, o.launched))
+       <<"Changed", ChangedFlag(o.ch, o.wrote, o.launched), ChangedFlag(m.ch, m.wrote, m.launched)>>,
        \* unchanged inputs: nothing rewritten, nothing launched
-       /\ Report("NoRedo", p, (j >= 2 /\ e.touched.del = <<>> /\ e.touched.data = <<>> /\ ~e.touched.tpl
-                               /\ NoOverwrite(H.set) /\ ~H.obj[p]) => (Nothing(o.wrote, o.launched) /\ e.stray = 0))
+       <<"NoRedo", unchanged => (Nothing(o.wrote, o.launched) /\ e.stray = 0), unchanged => Nothing(m.wrote, m.launched)>>,
        \* ... and per plot / group: whatever was done to OTHER plots before the run, an untouched plot is not redone
-       /\ Report("NoRedoPlot", p, (j >= 2 /\ ~TouchedPlot(e, p) /\ ~e.touched.tpl
-                                   /\ NoOverwrite(H.set) /\ ~H.obj[p]) => Nothing(o.wrote, o.launched))
+       <<"NoRedoPlot", untouched => Nothing(o.wrote, o.launched), untouched => Nothing(m.wrote, m.launched)>>
+     >>
+\* (IF - not a disjunction: TLC explores both sides of a disjunction in an action)
+Judge(e, dv, tv, pre) ==
+  /\ (IF e.exc = "" THEN TRUE ELSE PrintT(<<"BAD", hi, j, "RunRaised", 0, "other">>))
+  /\ \A p \in 1..NP : LET V == Verdicts(e, p, dv, tv, pre) IN
+       /\ \A i \in 1..Len(V) : IF V[i][2] THEN TRUE
+                                ELSE PrintT(<<"BAD", hi, j, V[i][1], p, IF V[i][3] THEN "other" ELSE "design">>)
+       /\ (IF \A i \in 1..Len(V) : V[i][2] THEN TRUE
+           ELSE PrintT(<<"DEV", hi, j, p, FirstDeviation(e.obs[p], Pinned(p, dv, tv, pre))>>))
 TNext == /\ j <= Len(H.runs)
          /\ LET e == H.runs[j]
                 dv == [p \in 1..NP |-> [m \in 1..H.srcs[p] |-> dataVer[p][m] + Count(e.touched.data, <<p, m>>)]]
@@ -65,6 +85,7 @@ TNext == /\ j <= Len(H.runs)
                /\ dataVer' = dv /\ tplVer' = tv
                /\ files' = [p \in 1..NP |-> [csv |-> e.obs[p].files.csv, tex |-> e.obs[p].files.tex,
                                              pdf |-> e.obs[p].files.pdf, png |-> e.obs[p].files.png]]
+               /\ newer' = [p \in 1..NP |-> IF e.obs[p].launched.pdf THEN FALSE ELSE newer[p] \/ e.obs[p].wrote.tex]
          /\ j' = j + 1 /\ hi' = hi
 TSpec == TInit /\ [][TNext]_tvars
 EndPrinted == (j = Len(H.runs) + 1) => PrintT(<<"END", hi>>)
